@@ -93,6 +93,7 @@ type TrBagWire struct {
 	N int64
 }
 type TrRaw struct{ B []byte }
+type TrAny struct{ V interface{} }
 
 type Shape interface{ isShape() }
 type Circle struct{ R int64 }
@@ -129,6 +130,7 @@ var zoo = []zooType{
 	{17, reflect.TypeOf(TrBag{}), "(st 17)", []string{"s", "i64"}},
 	{18, reflect.TypeOf(TrBagWire{}), "(st 18)", []string{"s", "i64"}},
 	{19, reflect.TypeOf(TrRaw{}), "(st 19)", []string{"x"}},
+	{22, reflect.TypeOf(TrAny{}), "(st 22)", []string{"a"}},
 	{20, reflect.TypeOf(Circle{}), "(st 20)", []string{"i64"}},
 	{21, reflect.TypeOf(Square{}), "(st 21)", []string{"s", "(pt i)"}},
 	{30, reflect.TypeOf((*Shape)(nil)).Elem(), "(if 30)", nil},
@@ -715,6 +717,10 @@ func transformFuncs(kind int) (interface{}, interface{}) {
 		// deliberately no copying: the transform passes the slice through
 		return func(x TrRaw) ([]byte, error) { return x.B, nil },
 			func(b []byte) (TrRaw, error) { return TrRaw{b}, nil }
+	case 9:
+		// the serial form is an untyped value
+		return func(x TrAny) (interface{}, error) { return x.V, nil },
+			func(v interface{}) (TrAny, error) { return TrAny{v}, nil }
 	}
 	panic("unknown transform kind")
 }
